@@ -42,13 +42,18 @@ fn setup(aliases: &[String]) -> Setup {
         Out::Val(Some(h)) => h,
         other => panic!("harness: could not prepare a handle: {:?}", other),
     };
-    let array = get(s.call("array", &["x", "y"]));
+    // the caller's collections name each other (an item of the array is the handle of the set, an item
+    // of the set is the handle of the one-item array, a key of the map is the handle of the array and
+    // its value is found in the pool): a command that releases a working copy "with everything in it"
+    // destroys a collection of the caller
+    let one = get(s.call("array", &["only"]));
+    let set = get(s.call("set_new", &["x", &one]));
+    let array = get(s.call("array", &["x", "y", &set]));
     let map = get(s.call("map", &[]));
-    s.call("map_put", &[&map, "k", "v"]);
-    let set = get(s.call("set_new", &["x"]));
+    s.call("map_put", &[&map, "k", "a"]);
+    s.call("map_put", &[&map, &array, "0"]);
     let released = get(s.call("array", &["gone"]));
     s.call("release", &[&released]);
-    let one = get(s.call("array", &["only"]));
     let mut variables = std::collections::HashMap::new();
     variables.insert("a".to_string(), "value".to_string());
     variables.insert("one".to_string(), one);
@@ -199,7 +204,7 @@ fn check_case(name: &str, aliases: &[String], tuple: &[&str], ctx_kind: usize, s
 
 
 /// Hundreds of calls of script-implemented commands (flat ones, nested ones, failing ones) in one run:
-/// afterwards the variables are exactly the script's own and the handle table is empty again.
+/// afterwards the variables are exactly the script's own and no temporary argument array remains.
 fn scale(w: &mut Worker) {
     for n in w.tier.pick(vec![300usize], vec![300usize, 3000]) {
         if !w.take() {
@@ -228,12 +233,42 @@ fn scale(w: &mut Worker) {
                 let mut got = vars.clone();
                 got.remove("arr");
                 got.remove("m");
+                // what may not remain: a list that is the argument list of one of the calls (the
+                // temporary made for passing them); other collections left behind are not the
+                // statement's business
                 let handles = handle_table(&c.state);
+                let (arr_h, m_h) = (vars.get("arr").cloned().unwrap_or_default(), vars.get("m").cloned().unwrap_or_default());
+                let mut arg_lists: std::collections::HashSet<Vec<String>> = std::collections::HashSet::new();
+                for i in 1..=n {
+                    let i = i.to_string();
+                    for l in [
+                        vec![arr_h.clone(), ",".to_string()],
+                        vec!["x".to_string(), i.clone(), "y".to_string()],
+                        vec![m_h.clone(), "v".to_string()],
+                        vec!["nohandle".to_string(), ",".to_string()],
+                        vec![arr_h.clone(), "c".to_string()],
+                        vec![arr_h.clone()],
+                        vec!["a".to_string(), i.clone()],
+                    ] {
+                        arg_lists.insert(l);
+                    }
+                }
+                let left: Vec<&String> = handles
+                    .iter()
+                    .filter(|(_, v)| match v {
+                        SV::L(items) => {
+                            let l: Option<Vec<String>> = items.iter().map(|x| if let SV::S(t) = x { Some(t.clone()) } else { None }).collect();
+                            l.map(|l| arg_lists.contains(&l)).unwrap_or(false)
+                        }
+                        _ => false,
+                    })
+                    .map(|(k, _)| k)
+                    .collect();
                 if got != expect {
                     let extra: Vec<&String> = got.keys().filter(|k| !expect.contains_key(*k)).collect();
                     w.fail("scale:variables-differ", &format!("after {} rounds of script commands: unexpected variables {:?}; all: {:?}", n, extra, got), cj);
-                } else if !handles.is_empty() {
-                    w.fail("scale:handles-left", &format!("after {} rounds of script commands {} handles remain in the table", n, handles.len()), cj);
+                } else if !left.is_empty() {
+                    w.fail("scale:argument-arrays-left", &format!("after {} rounds of script commands {} temporary argument arrays remain in the table (first {})", n, left.len(), left[0]), cj);
                 } else {
                     w.pass(true, hash64(&"scale-many-calls"));
                 }
@@ -308,7 +343,7 @@ pub fn crash_sig(case: &Value, kind: &str) -> String {
     format!("{}:{}", kind, case["command"].as_str().unwrap_or("?"))
 }
 
-pub const RULE: &str = "commands: every standard-library command whose help carries the 'Show Source' block (that is how script-implemented commands render themselves; discovered at run time, std::net excluded) x every argument tuple up to the arity bound from a 16-value pool {empty, a, 'a b', multi-byte, -1, 0, 2.5, live array/map/set handle, released handle, -r, text with a line break, 'x,y', '*.txt', the name of the variable in which the command itself receives its arguments} x context {top level, inside a user function, inside a for body, three times in a row, as the condition of an if}; the caller's variables are pre-set, including names that resemble the internal names of the command under test (scope::<alias>x::string, scope::<alias>). Oracle: variables after the run equal the variables before it, apart from the output variable and the names given to unset; no scope:: variable is left; every pre-existing collection is unchanged; at most the returned collection is new in the handle table; the run does not fail ('Memory leak detected' is a failure). Scale case: 300 (thorough 3000) rounds of seven script-implemented commands (flat, nested, failing) in one run: afterwards the variables are exactly the script's own and the handle table is empty";
+pub const RULE: &str = "commands: every standard-library command whose help carries the 'Show Source' block (that is how script-implemented commands render themselves; discovered at run time, std::net excluded) x every argument tuple up to the arity bound from a 16-value pool {empty, a, 'a b', multi-byte, -1, 0, 2.5, live array/map/set handle, released handle, -r, text with a line break, 'x,y', '*.txt', the name of the variable in which the command itself receives its arguments} x context {top level, inside a user function, inside a for body, three times in a row, as the condition of an if}; the caller's variables are pre-set, including names that resemble the internal names of the command under test (scope::<alias>x::string, scope::<alias>). Oracle: variables after the run equal the variables before it, apart from the output variable and the names given to unset; no scope:: variable is left; every pre-existing collection is unchanged; at most the returned collection is new in the handle table; the run does not fail ('Memory leak detected' is a failure). Scale case: 300 (thorough 3000) rounds of seven script-implemented commands (flat, nested, failing) in one run: afterwards the variables are exactly the script's own and no list equal to the argument list of one of the calls remains in the handle table. The caller's collections name each other (an item of the array is the handle of the set, an item of the set the handle of another array, a key of the map the handle of the array), so a command that releases a working copy together with what its items name destroys a caller's collection";
 pub const ASSUMPTIONS: &[&str] = &["arguments are passed through caller variables p1..p3", "file-system effects of cp_glob / set_mode_glob are confined to a scratch working directory and not part of this property"];
 pub const EXHAUSTIVE: bool = true;
 pub const WALL_CAP_S: (u64, u64) = (58, 1700);
